@@ -1,4 +1,5 @@
 import RedactVerif.Proofs.NI
+import RedactVerif.Proofs.PrinterNI
 import RedactVerif.Props.C01
 /-
 C02 — redacted output is independent of unsafe data (non-interference), and
@@ -27,9 +28,6 @@ def OpRel (m : Mode) : Op → Op → Prop
   | .accRedactable, .accRedactable => True
   | .accMode, .accMode => True
   | _, _ => False
-
-theorem brel_init : BRel Buffer.init Buffer.init :=
-  ⟨inv_init, inv_init, rfl, rfl, rfl, pendRel_nil _⟩
 
 theorem step_rel (b1 b2 : Buffer) (o1 o2 : Op) (h : BRel b1 b2) (hr : OpRel b1.mode o1 o2)
     (k1 : OpOk b1 o1) (k2 : OpOk b2 o2) : BRel (b1.step o1).1 (b2.step o2).1 := by
@@ -182,5 +180,78 @@ example : redact (Buffer.init.run (exOps [0x61, 0x6C] ([0x70] ++ startB ++ [0x0A
 
 example : redact (Buffer.init.run (exOps [0x61, 0x6C] ([0x70] ++ startB ++ [0x0A, 0x78]))).redactableBytes
     = startB ++ crossB ++ endB ++ [0x75, 0x3D] ++ startB ++ crossB ++ endB ++ [0x0A] ++ startB ++ crossB ++ endB := by decide
+
+
+/-! ### The printer: Sprint, Sprintf, HelperForErrorf -/
+
+/-- What a low observer sees of a print call: how it ended and, on success, `Redact()` of the result. -/
+def Res.redacted : Res → Option (Option (List Byte))
+  | .ok p => some (some (redact p.buf.redactableBytes))
+  | .panic => some none
+  | .fuel => none
+  | .unsupported => none
+
+theorem redacted_eq_of_RR {ov0 : Override} {r1 r2 : Res} (h : RR ov0 r1 r2) : r1.redacted = r2.redacted := by
+  cases r1 <;> cases r2 <;> simp only [RR] at h <;> try (exact h.elim)
+  · simp only [Res.redacted]
+    rw [redact_eq_of_brel _ _ h.1.b]
+  all_goals rfl
+
+theorem prel_newPP (we : Bool) : PRel { newPP with wrapErrs := we } { newPP with wrapErrs := we } :=
+  ⟨brel_init, by show Buffer.init.mode ≠ .raw; decide, rfl, rfl, rfl, rfl, rfl, rfl, rfl, rfl⟩
+
+/-- The security hypothesis on an argument list: what is declared safe is public (`SecV`),
+and embedded redactables are finished redactables (`ValOk`). -/
+def ArgsOk (pub : Nat → Prop) (args : List Val) : Prop := ListOk args ∧ ∀ v ∈ args, SecV pub v
+
+/-- **C02, printer level.** For every format (every verb, flag, width, precision, `*` and
+argument-index form, well-formed or not) and every argument list of the modelled universe,
+two runs whose leaf renderings agree on every leaf declared safe and have the same shape
+(same emptiness, same line-feed structure) on every other leaf end the same way (both return,
+or both panic), and `Redact()` of the two results is byte-for-byte identical. -/
+theorem sprintf_noninterference (pub : Nat → Prop) (env1 env2 : Env) (he : EnvRel pub env1 env2)
+    (format : List Byte) (args : List Val) (ha : ArgsOk pub args) :
+    (sprintf env1 format args).redacted = (sprintf env2 format args).redacted :=
+  redacted_eq_of_RR ((rspec_all he defaultFuel).doPrintf .no _ _ format args (prel_newPP false) rfl ha.1 ha.2)
+
+theorem sprint_noninterference (pub : Nat → Prop) (env1 env2 : Env) (he : EnvRel pub env1 env2)
+    (args : List Val) (ha : ArgsOk pub args) :
+    (sprint env1 args).redacted = (sprint env2 args).redacted :=
+  redacted_eq_of_RR ((rspec_all he defaultFuel).doPrint .no _ _ args (prel_newPP false) rfl ha.1 ha.2)
+
+theorem helperForErrorf_noninterference (pub : Nat → Prop) (env1 env2 : Env) (he : EnvRel pub env1 env2)
+    (format : List Byte) (args : List Val) (ha : ArgsOk pub args) :
+    (helperForErrorf env1 format args).redacted = (helperForErrorf env2 format args).redacted :=
+  redacted_eq_of_RR ((rspec_all he defaultFuel).doPrintf .no _ _ format args (prel_newPP true) rfl ha.1 ha.2)
+
+/-- The same for any user method script run on a SafePrinter (`SafeFormat`, `Format`, error hook). -/
+theorem script_noninterference (pub : Nat → Prop) (env1 env2 : Env) (he : EnvRel pub env1 env2)
+    (sc : Script) (hok : ScriptOk sc) (hs : SecS pub sc) (fuel : Nat) :
+    SR pub .no (runScript env1 fuel newPP sc) (runScript env2 fuel newPP sc) :=
+  (rspec_all he fuel).runScript .no _ _ sc (prel_newPP false) rfl hok hs
+
+/-! Non-vacuity: the hypotheses are met by two oracles that differ on an unsafe leaf. -/
+
+def exPub : Nat → Prop := fun id => id = 1
+def exEnv (secret : List Byte) : Env :=
+  { render := fun id _ => if id = 0 then some secret else if id = 1 then some [0x37] else none, hook := none }
+def exArgs : List Val :=
+  [.leaf 0 .str "string".toUTF8.toList none false false,
+   .safeW (.leaf 1 .sint "int".toUTF8.toList (some 7) false false)]
+
+example : EnvRel exPub (exEnv [0x61, 0x62]) (exEnv [0x7A]) ∧ ArgsOk exPub exArgs ∧
+    (exEnv [0x61, 0x62]).render 0 [] ≠ (exEnv [0x7A]).render 0 [] := by
+  refine ⟨⟨rfl, ?_, ?_, ?_⟩, ⟨?_, ?_⟩, by simp [exEnv]⟩
+  · intro id d
+    simp only [exEnv]
+    by_cases h0 : id = 0
+    · simp [h0, canonB, cF, LF, exPub]
+    · by_cases h1 : id = 1
+      · simp [h1, exPub]
+      · simp [h0, h1]
+  · intro f hf; simp [exEnv] at hf
+  · intro h hh; simp [exEnv] at hh
+  · intro v hv; simp [exArgs] at hv; rcases hv with rfl | rfl <;> simp [ValOk]
+  · intro v hv; simp [exArgs] at hv; rcases hv with rfl | rfl <;> simp [SecV, AllPubV, exPub]
 
 end Redact
